@@ -1,12 +1,13 @@
-(* Extraction of the policy model (bus/policy.c, the gate and its callers) and
-   of the specification oracle.  ExtrOcamlBasic only. *)
+(* Extraction of the policy model (bus/policy.c, configuration trees, the gate and
+   its callers) and of the specification oracle.  ExtrOcamlBasic only. *)
 Require Extraction.
 Require Import ExtrOcamlBasic.
-From DV Require Import Lib.Base Policy.Policy Policy.PolicyBus Spec.PolicySpec.
+From DV Require Import Lib.Base Policy.Policy Policy.PolicyConfig Policy.PolicyBus Spec.PolicySpec Spec.PolicyConfigSpec.
 Extraction Language OCaml.
 Extraction "model_policy.ml"
   rule_new rule_from_element load_policy policy_empty client_rules create_client_policy
   optimize optimize_with catch_all_c universal f3_condition
   check_can_send check_can_receive check_can_own send_toggles
-  bus_init step step_with
+  load_config denote allow_unix_user spec_admit cfg_rules select
+  mkEnv daemon_env bus_start step_with
   spec_can_send spec_can_receive spec_can_own dev_none dev_code optimizer_condition_ok rule_wf.
